@@ -144,9 +144,10 @@ class StdLib:
 
     def alias(self, canon):
         """std types modelled as plain C types"""
-        m = re.match(r"__gnu_cxx::__normal_iterator<(.*), std::(vector|basic_string|__cxx11::basic_string)<", canon)
-        if m:
-            return parse_type(m.group(1))
+        if canon.startswith("__gnu_cxx::__normal_iterator<"):
+            a = targs(canon)
+            if len(a) == 2 and re.match(r"std::(vector|basic_string|__cxx11::basic_string)<", a[1]):
+                return parse_type(a[0])
         if canon == "verif_ctrl":
             return None
         return None
@@ -242,7 +243,10 @@ static inline void %(s)s_init(%(s)s *v) { v->n = 0; v->cap = %(CAP)d; }
 static inline void %(s)s_dtor(%(s)s *v) { (void)v; }
 static inline void %(s)s_clear(%(s)s *v) { v->n = 0; }
 static inline void %(s)s_push_back(%(s)s *v, %(T)s *x) { __CPROVER_assert(v->n < %(CAP)d, "BOUND vector longer than the bounded model's capacity"); v->b[v->n] = *x; v->n++; }
-static inline %(T)s *%(s)s_at(%(s)s *v, unsigned long i) { if (i >= v->n) { __verif_exc = %(OOR)s; return v->b; } return v->b + i; }
+/* element access goes through a case split over CONCRETE indices: CBMC 6.11 mis-reads through a pointer to an
+ * array-containing member of arr[i] when i is symbolic (probe: /verif/DESIGN.md 14.3) */
+static %(T)s *%(s)s_elem(%(s)s *v, unsigned long i) { unsigned long k; __CPROVER_assert(i < %(CAP)d, "vector index inside the bounded model's storage"); for (k = 0; k + 1 < %(CAP)d; k++) if (k == i) return &v->b[k]; return &v->b[%(CAP)d - 1]; }
+static inline %(T)s *%(s)s_at(%(s)s *v, unsigned long i) { if (i >= v->n) { __verif_exc = %(OOR)s; return &v->b[0]; } return %(s)s_elem(v, i); }
 static inline void %(s)s_resize(%(s)s *v, unsigned long n) { __CPROVER_assert(n <= v->n, "BOUND growing resize is not modelled for the bounded vector"); v->n = n; }
 """ % dict(s=s, T=T, CAP=CAP, OOR=OOR)
         tr.opts.setdefault("stub_may_throw", [])
@@ -554,6 +558,13 @@ static inline void verif_lock_guard_dtor(std_lock_guard_std_mutex *g) { g->m->g_
                 return "verif_lock_guard_dtor"
             if ty.name.startswith("std::function<"):
                 return ""
+            if ty.name.startswith("std::pair<"):
+                # members: scalars, or strings of the bounded inline model (whose destructor is a no-op)
+                for a in targs(ty.name):
+                    t = parse_type(a)
+                    if t.kind == "rec" and not (self.is_string(t.name) and tr.opts.get("bounded_str")):
+                        raise ExtractionBreak("destructor of std::pair with member %s" % t.name)
+                return ""
         return None
 
     # ------------------------------------------------------------------ calls
@@ -666,9 +677,19 @@ static inline void verif_lock_guard_dtor(std_lock_guard_std_mutex *g) { g->m->g_
                 return X("mem", o, "b", ty=Ty("ptr", to=T))
             if m == "end" or m == "cend":
                 return X("bin", "+", X("mem", o, "b"), X("mem", o, "n"), ty=Ty("ptr", to=T))
+            if m == "operator[]" and canon.startswith("std::vector<") and tr.opts.get("bounded_vec"):
+                return deref(X("call", s + "_elem", [addr(o), tr.rv(args[0])], ty=Ty("ptr", to=T)))
             if m == "operator[]":
                 return X("index", X("mem", o, "b"), tr.rv(args[0]), ty=T)
             tracked = self.is_tracked(canon)
+            if canon.startswith("std::vector<") and tr.opts.get("bounded_vec"):
+                PT = Ty("ptr", to=T)
+                if m == "operator[]":
+                    return deref(X("call", s + "_elem", [addr(o), tr.rv(args[0])], ty=PT))
+                if m == "back":
+                    return deref(X("call", s + "_elem", [addr(o), X("bin", "-", X("mem", o, "n"), X("lit", "1ul"))], ty=PT))
+                if m == "front":
+                    return deref(X("call", s + "_elem", [addr(o), X("lit", "0ul")], ty=PT))
             bstr = self.is_string(canon) and bool(tr.opts.get("bounded_str"))
             if bstr:
                 UL = parse_type("unsigned long")
